@@ -26,6 +26,11 @@ def run(rep, tier, seed, replay):
                 "paths its compiled pattern matches, of the rootedness it claims, is computed by an automata product and must "
                 "lie within depth(); non-trivial = built and (variant depth or has a pattern token)" % CAP)
     exprs = lib.inputs(rep, "C10", tier, seed, 2500, 30000, replay)
+    if replay is None:
+        import random as _random, gen as _gen
+        fam = _gen.exh_family(_random.Random(seed), 4000 if tier == "quick" else None)
+        known = set(exprs)
+        exprs += [e for e in fam if e not in known]
     P = lib.Pair(exprs)
     h, m = P.h, P.m
     rep.evaluations = len(exprs)
